@@ -2,8 +2,8 @@
    coq/C06/SpecifierProofs.v, followed by Print Assumptions.
    [resolve] is the repaired resolution algorithm (branch fix-C06-specifier-ties), [resolve_old] the
    algorithm as found in round 0; both are step-by-step models of Constructible._resolveSpecifiers. *)
-From Coq Require Import ZArith NArith List Permutation.
-From Scenic Require Import C06.Specifier C06.SpecifierProofs.
+From Coq Require Import ZArith NArith List Bool Lia Permutation.
+From Scenic Require Import C06.Specifier C06.SpecifierProofs C06.MoreProofs.
 Import ListNotations.
 Open Scope Z_scope.
 
@@ -126,3 +126,78 @@ Example C06_examples :
   resolve [at_; at_] [] [] = Err ESelfModify /\
   resolve [fac] [] [] = Err EMissingDep.
 Proof. vm_compute. repeat split; reflexivity. Qed.
+
+(* ---------------------------------------------------------------- round 2 *)
+(* Every specifier (and every default that was added) is evaluated exactly once, and nothing else is. *)
+Theorem C06_order_nodup : forall fx specs defaults finals r,
+  resolve_gen fx specs defaults finals = OK r ->
+  NoDup (r_order r) /\ (forall x, In x (r_order r) <-> In x (r_all r)) /\
+  (NoDup (r_all r) -> Permutation (r_order r) (r_all r)).
+Proof. exact order_nodup. Qed.
+Print Assumptions C06_order_nodup.
+
+(* Class defaults (Constructible.__init_subclass__ / PropertyDefault.resolveFor; [defs_of mro p] = the definitions
+   of p along the MRO, most derived first): exactly one default per property defined anywhere; it is the MOST
+   DERIVED definition (own dependencies; an additive default depends on what any definition depends on);
+   final iff the most derived definition is final, dynamic iff any definition is dynamic. *)
+Theorem C06_defaults_most_derived : forall mro ds fin dyn,
+  merge_defaults mro = Merged ds fin dyn ->
+  NoDup (map fst ds) /\
+  (forall p, In p (map fst ds) <-> defs_of mro p <> []) /\
+  (forall p s, In (p, s) ds -> exists primary rest,
+      defs_of mro p = primary :: rest /\ existsb d_final rest = false /\
+      sname s = 0%N /\ prios s = [(p, -1)] /\ is_mod s = false /\ modifiable s = [] /\
+      (if d_additive primary
+       then forall x, In x (deps s) <-> exists d, In d (primary :: rest) /\ In x (d_deps d)
+       else deps s = d_deps primary)) /\
+  (forall p, In p fin <-> exists primary rest, defs_of mro p = primary :: rest /\ d_final primary = true) /\
+  (forall p, In p dyn <-> exists d, In d (defs_of mro p) /\ d_dynamic d = true).
+Proof. exact defaults_most_derived. Qed.
+Print Assumptions C06_defaults_most_derived.
+
+(* ... and merging is refused exactly when a class overrides a default that a less derived class made final. *)
+Theorem C06_defaults_override_final : forall mro,
+  (exists p, merge_defaults mro = OverridesFinal p) <->
+  (exists p primary rest, defs_of mro p = primary :: rest /\ existsb d_final rest = true).
+Proof. exact defaults_override_final. Qed.
+Print Assumptions C06_defaults_override_final.
+
+Example C06_merge_example :
+  merge_defaults [cls_derived; cls_base] =
+    Merged [(1%N, mkSpec 0%N [(1%N, -1)] [2%N] false []); (2%N, mkSpec 0%N [(2%N, -1)] [] false [])] [] [] /\
+  merge_defaults [[(1%N, mkPdef [] false false false)]; [(1%N, mkPdef [] false false true)]] = OverridesFinal 1%N /\
+  merge_defaults [[(1%N, mkPdef [3%N] true true false)]; [(1%N, mkPdef [2%N] true false false)]] =
+    Merged [(1%N, mkSpec 0%N [(1%N, -1)] [3%N; 2%N] false [])] [] [1%N].
+Proof. exact merge_example. Qed.
+
+(* Any number of modifying specifiers: what never depends on the order.  A property somebody mentions ends up
+   held with the best priority anybody gives it, by a specifier giving it that priority; a specifier that
+   alone gives the best priority holds it whatever the order. *)
+Theorem C06_resolve_holder_best : forall specs defaults finals r p,
+  resolve specs defaults finals = OK r ->
+  (exists s k, In s specs /\ In (p, k) (prios s)) ->
+  exists x kx, lookup (r_props r) p = Some (x, kx) /\ In x specs /\ In (p, kx) (prios x) /\
+    (forall s k, In s specs -> In (p, k) (prios s) -> kx <= k) /\
+    (forall s, In s specs -> In (p, kx) (prios s) ->
+       (forall s' , In s' specs -> In (p, kx) (prios s') -> s' = s) -> x = s).
+Proof. exact resolve_holder_best. Qed.
+Print Assumptions C06_resolve_holder_best.
+
+(* ... and what does: with two different modifying specifiers (normal p@3, A p@1, B p@2) A holds p in both orders,
+   but B modifies p only when written after A; with a third (C p@2) even success depends on the order.
+   (Scenic has a single modifying specifier, `on`: hypothesis of C06_resolve_perm_builtin, re-checked per run.) *)
+Theorem C06_two_modifiers_order_dependent_refuted :
+  Permutation [mN; mA; mB] [mN; mB; mA] /\
+  (exists r r', resolve [mN; mA; mB] [] [] = OK r /\ resolve [mN; mB; mA] [] [] = OK r' /\
+     lookup (r_props r) 1%N = Some (mA, 1) /\ lookup (r_props r') 1%N = Some (mA, 1) /\
+     lookup (r_mods r) 1%N = Some mB /\ lookup (r_mods r') 1%N = None) /\
+  ~ same_outcome (resolve [mN; mA; mB] [] []) (resolve [mN; mB; mA] [] []).
+Proof. exact two_modifiers_order_dependent. Qed.
+Print Assumptions C06_two_modifiers_order_dependent_refuted.
+
+Theorem C06_three_modifiers_error_order_dependent_refuted :
+  Permutation [mN; mA; mB; mC] [mN; mB; mA; mC] /\
+  resolve [mN; mA; mB; mC] [] [] = Err EModifiedTwice /\
+  ~ is_err (resolve [mN; mB; mA; mC] [] []).
+Proof. exact three_modifiers_error_order_dependent. Qed.
+Print Assumptions C06_three_modifiers_error_order_dependent_refuted.
